@@ -198,6 +198,16 @@ class Ev:
         return (ekey(self.dim), ekey(self.mag))
 
 
+def _atom(e):
+    """An anonymous scaled unit (`U * m`) that becomes a factor of a product or the base of a power is a unit in its own
+    right there: the library keeps `ScaledUnit<U, m>` as one base of the product (it neither distributes the scale factor
+    nor cancels U against other factors), and the statement's type-identity clause speaks of products/powers of the same
+    *units*.  So for identity purposes it is an atomic base named by its own canonical key."""
+    if not e.scale:
+        return e
+    return Ev(e.dim, e.mag, {f"Scaled<{e.key()}>": Fraction(1)}, {})
+
+
 def ev(tree, leaves):
     """leaves: TypeName -> (dim, mag)"""
     k = tree[0]
@@ -205,13 +215,13 @@ def ev(tree, leaves):
         d, m = leaves[tree[1]]
         return Ev(dict(d), dict(m), {tree[1]: Fraction(1)}, {})
     if k in ("mul", "div"):
-        a, b = ev(tree[1], leaves), ev(tree[2], leaves)
+        a, b = _atom(ev(tree[1], leaves)), _atom(ev(tree[2], leaves))
         s = 1 if k == "mul" else -1
-        return Ev(emul(a.dim, epow(b.dim, s)), emul(a.mag, epow(b.mag, s)), emul(a.bases, epow(b.bases, s)), emul(a.scale, epow(b.scale, s)))
+        return Ev(emul(a.dim, epow(b.dim, s)), emul(a.mag, epow(b.mag, s)), emul(a.bases, epow(b.bases, s)), {})
     if k in ("pow", "root", "alias"):
-        a = ev(tree[1] if k != "alias" else tree[2], leaves)
+        a = _atom(ev(tree[1] if k != "alias" else tree[2], leaves))
         f = Fraction(tree[2]) if k == "pow" else Fraction(1, tree[2]) if k == "root" else ALIAS[tree[1]]
-        return Ev(epow(a.dim, f), epow(a.mag, f), epow(a.bases, f), epow(a.scale, f))
+        return Ev(epow(a.dim, f), epow(a.mag, f), epow(a.bases, f), {})
     if k == "scale":
         a = ev(tree[1], leaves)
         m = mag_eval(tree[2])
